@@ -53,7 +53,7 @@ def run_jobs(jobs, timeout=900):
         p = subprocess.run([PY, '-m', 'harness.simmpi.runner'], input=json.dumps({'jobs': jobs}), text=True,
                            capture_output=True, env=env, cwd=VERIF, timeout=timeout)
     except subprocess.TimeoutExpired:
-        return None, 'worker timeout after %ss' % timeout
+        return None, 'TIMEOUT worker wall-clock limit %ss' % timeout
     if p.returncode != 0:
         return None, p.stderr[-3000:]
     try:
@@ -189,9 +189,7 @@ def compare(cfg, ser, m, stats):
     for what, key in problems:
         bad.append(('rank-dependent', {'what': what, 'step': key}))
     ssteps, spre, sits = merge_serial(ser)
-    if sorted(steps) != sorted(ssteps):
-        bad.append(('steps', {'serial': sorted(ssteps), 'mpi': sorted(steps)}))
-        return bad
+    steps_differ = sorted(steps) != sorted(ssteps)
 
     def num(field, a, b, key, tol):
         if a is None or b is None:
@@ -203,7 +201,9 @@ def compare(cfg, ser, m, stats):
         if not ok:
             bad.append((field, {'step': key, 'serial': np.asarray(a).tolist(), 'mpi': np.asarray(b).tolist(), 'reldiff': d}))
 
-    for key in sorted(ssteps):
+    # (when the sets of steps differ the common steps are still compared in order, so that the FIRST differing
+    # quantity - the root - is reported rather than its consequence "different number of steps")
+    for key in sorted(k for k in ssteps if k in steps):
         s, p = ssteps[key], steps[key]
         num('time', s['time'], p['time'], key, TIME_RTOL)
         num('dt', s['dt'], p['dt'], key, TIME_RTOL)
@@ -232,6 +232,9 @@ def compare(cfg, ser, m, stats):
         else:
             for k in si:
                 num('residual_it', si[k][0], pi[k][0], key + (k,), vtol)
+    if steps_differ:
+        bad.append(('steps', {'serial': sorted(ssteps), 'mpi': sorted(steps)}))
+        return bad
     # restart counters: the serial flavour aliases them (known finding), so the MPI run is also checked against the
     # documented update rule itself: slot j of the next block inherits from slot j + restart_from of this block
     blocks = sorted({k[0] for k in steps})
@@ -343,6 +346,10 @@ def core_configs():
         C('t4artearly', P=4, art_restarts=[0.125, 0.625, 0.75], restarting={'max_restarts': 2}, Tend=1.5),
         C('t3spreadTend', P=3, art_restarts=[0.25], art_dt=4, restarting={'max_restarts': 2},
           spread={'spread_from_first_restarted': True}, Tend=0.75),
+        C('b2x2spreadTend', kind='both', P=2, M=2, problem='heat', nvars=[16, 8, 4], QI='IEpar', dt=0.05, Tend=0.2, maxiter=4,
+          mssdc_jac=True, nsweeps=[3], art_restarts=[0.05, 0.15000000000000002], art_dt=3,
+          restarting={'max_restarts': 1, 'restart_from_first_step': False}, spread={'spread_from_first_restarted': False},
+          residual_type='last_rel'),
         C('t4artdt', P=4, art_restarts=[0.375], art_dt=3, restarting={'max_restarts': 1},
           spread={'spread_from_first_restarted': False}, Tend=2.0),
         C('t3artfirst', P=3, art_restarts=[0.25, 0.625], restarting={'max_restarts': 2, 'restart_from_first_step': True},
@@ -656,11 +663,19 @@ def run(ck):
     for job, (r, err) in zip(jobs, results):
         cfg = job['cfg']
         name = cfg['name']
+        if r is None and str(err).startswith('TIMEOUT'):
+            # a wall-clock limit under machine load says nothing about the code: recorded, not judged
+            # (deadlock = no enabled rank, runaway = deterministic record/event budgets are detected deterministically)
+            ck.cov.setdefault('skipped_timeout', []).append(name)
+            continue
         if r is None:
             ck.obligation('worker %s' % name, False, str(err)[-400:])
             viol('simulated-MPI worker failed', {'cfg': cfg, 'error': str(err)[-2000:]}, {'kind': 'worker', 'cfg': name})
             continue
         ser = r['serial']
+        if ser.get('outcome') == 'TooExpensive':
+            ck.cov.setdefault('configs_skipped_too_expensive', []).append(name)
+            continue
         # which option values occur in runs that REALLY restart (serial reference), and where
         if ser.get('outcome') == 'ok':
             rst = [x['slot'] for x in ser['recs'] if x['ev'] == 'post' and x['restart']]
@@ -687,6 +702,14 @@ def run(ck):
             if 'harness_error' in m:
                 viol('harness error in simulated run', {'cfg': cfg, 'schedule': spec, 'error': m['harness_error'], 'tb': m['tb']},
                      {'kind': 'harness', 'cfg': name})
+                continue
+            if m.get('abort') == 'timeout':
+                ck.cov.setdefault('skipped_timeout', []).append('%s %s' % (name, json.dumps(spec)))
+                continue
+            if any(e and e[0] == 'TooExpensive' for e in m['errors']):
+                # deterministic budget: a rank of the MPI run needs more step attempts than the WHOLE serial run was allowed
+                viol('simulated MPI run exceeds the step budget the serial run stayed within (runaway)',
+                     {'cfg': cfg, 'schedule': spec}, {'kind': 'runaway', 'cfg_kind': cfg['kind'], 'feature': feature_of(cfg)})
                 continue
             nsched += 1
             nranks = len(m['errors'])
@@ -736,6 +759,15 @@ def run(ck):
                         match['after_restart'] = bool(prev)
                         if prev:
                             match['restart_slot'] = '0' if min(r['slot'] for r in prev) == 0 else '>=1'
+                            if field == 'dt':
+                                # is the serial step size exactly the serial Tend-clipping
+                                # (Tend - time[restart_at] - dt[restart_at]) / size  of SpreadStepSizesBlockwiseNonMPI ?
+                                frst = min(prev, key=lambda r: r['slot'])
+                                size = len([r for r in ser['recs'] if r['ev'] == 'post' and r['block'] == step[0] - 1])
+                                clip = (cfg['Tend'] - frst['time'] - (frst['dt'] if frst['slot'] >= 1 else 0.0)) / size
+                                sdt = detail.get('serial')
+                                match['cause_hint'] = ('serial_dt_max_clip' if isinstance(sdt, float) and abs(sdt - clip) <= 1e-12 * max(1.0, abs(clip))
+                                                       else 'other')
                     viol('MPI variant differs from the serial emulation: %s' % field,
                          {'cfg': cfg, 'schedule': spec, 'detail': detail, 'n_discrepancies': len(rest),
                           'all_fields': sorted({b[0] for b in rest})}, match)
